@@ -17,6 +17,8 @@ from automata.fa.nfa import NFA
 from harness import gen, langoracle
 from harness import nfa_mutable as M
 from harness import dfa_query_lib3 as DL
+from harness import dfa_query_lib as QL
+from harness import nfa_deep as ND
 from harness.common import guarded, Ctx, Toks, call, dfa_plain, enc_dfa, enc_nfa, nfa_plain, toks
 from harness.dfaops_common import (check_valid, lang_mismatch, parse_canon, py_canon, render_block, render_subset)
 
@@ -33,7 +35,20 @@ RULE = ("cases = (conversion, options, source automaton); all NFAs with ε: 1 st
         "shared rows) / copied containers, a SEQUENCE of 3–6 conversions and reads on that same object (from_nfa in all "
         "option combinations, eliminate_lambda, accepts_input, from_nfa → from_dfa twice, eliminate_lambda → from_nfa), "
         "every result judged against the definition AS BUILT (frozen twin); bounded-exhaustive for 1-state {a,b} and every "
-        "4th 2-state {a} NFA; live DFAs under NFA.from_dfa; non-trivial "
+        "4th 2-state {a} NFA; live DFAs under NFA.from_dfa; round 7: DEEP / LARGE instances (size thresholds: recursion depth, "
+        "bounded memos, cut-offs, buffers, quadratic blow-ups) — from JSON specs (harness/nfa_deep.py), through the real constructors: "
+        "a chain of 2400–3000 states + an unreachable component of 1100–2000 states with edges into the reachable part; a chain of "
+        "1100–2000 steps EACH doubled by an empty-string move, ending in a cycle of 2–5 states; a PURE empty-string chain of 1100–1200 "
+        "states and an empty-string CYCLE of 1100–1130 states in front of a tiny automaton (eliminate_lambda, L×L there, on a cycle of "
+        "300–450); a chain of 1100–3000 states followed by 'n-th symbol from the end', n = 3–4; a ring / a last state with an edge back "
+        "to one of the first four states (1100–3000 states); a fan-out of 1100–3000 targets; for NFA.from_dfa a partial chain DFA of "
+        "2400–3000 states with an unreachable component and a complete ring DFA of 1100–3000 states with a trap — DFA.from_nfa in ALL "
+        "four option combinations + eliminate_lambda on every NFA of the family (one object per spec; the 1100-cycle: from_nfa only), judged by the CLOSED FORM of the "
+        "language on the accepted words (1100–3000+ symbols) and their near misses (one symbol more / fewer / changed at the first, "
+        "last, a random place and around places 128, 256, 1000), validity, alphabet, no \"\" key, every state reachable, state counts "
+        "where the construction fixes them (correspondence only); NO model round trip for these; each spec also as a small twin (≤ 20 "
+        "states: closed form vs table semantics on all words ≤ 11, then the ordinary oracles); a failing step is re-run alone on a "
+        "rebuilt object; no answer within 10 s is a failure; non-trivial "
         "= source has ≥2 states and a non-empty, non-universal language; distinct = distinct (conversion, options, source)")
 ASSUMPTIONS = [
     "sources are valid automata built through the real constructors",
@@ -51,7 +66,11 @@ ASSUMPTIONS = [
     "symbol 0 as if it were ε); not generated, not claimed",
 ]
 EXPLANATION = ("Theorems C07_* (Props/C07.lean) are about the model; this run ties the model to the code and checks the "
-               "language and structural claims on the real results with an independent product search.")
+               "language and structural claims on the real results with an independent product search.  The theorems have no size "
+               "bound, the product search and the model round trip do (≤ 14 states / ≤ 512 subset states): the deep / large family "
+               "(round 7) runs every conversion on automata with 1100–3000 states on one simple path and judges the results by the "
+               "closed form of the language, so that a change that only bites beyond a size (recursion limit, bounded memo, cut-off, "
+               "buffer, a call that no longer answers) has a failing input in every run.")
 
 
 def nontrivial(src, n_states) -> bool:
@@ -539,6 +558,329 @@ def many_subsets_family(ctx: Ctx):
                               len(D.states), f"{c} reachable non-empty subsets")
 
 
+# ------------------------------------------------------------------ round 7: deep / large instances
+# SIZE THRESHOLDS.  Every generator above builds automata of ≤ 14 states (≤ 512 subset states) and the product search
+# reads words of a few symbols, so a change that only bites beyond a size is invisible to them: a loop rewritten as
+# recursion (CPython's limit is hit near depth 1000 — RecursionError instead of the automaton), a depth / count
+# cut-off, a fixed-size buffer, a bounded memo, a quadratic copy that no longer answers.  C07 quantifies over ALL
+# valid automata, so this family builds a handful of NFAs / DFAs with 1100–3000 states on one simple path
+# (harness/nfa_deep.py: long symbol chains, chains whose EVERY step is doubled by an empty-string move, pure
+# empty-string chains and empty-string CYCLES of 1100+ states, a long chain followed by 'n-th symbol from the end'
+# with small n — the subset construction stays linear —, a chain closed into a ring / ending in a short cycle, a
+# fan-out of 1100–3000 targets, an UNREACHABLE component of 1100+ states with edges into the reachable part) and
+# runs DFA.from_nfa (all four retain_names × minify combinations), NFA.eliminate_lambda and NFA.from_dfa on them.
+# The languages are known in CLOSED FORM from the construction parameters, so the verdict needs neither the library's
+# algorithms nor the Lean model: NO model round trip is made for these cases (stat
+# `deep:closed_form_oracle_no_model_round_trip`).  Judged on each result: it validates, same alphabet, the transition
+# tables of the result (read by langoracle's textbook interpreter) accept exactly the probe words the closed form
+# accepts — the accepted words of 1100–3000+ symbols and their near misses: one symbol more / fewer, one symbol
+# changed at the first / last place, around places 127/128, 255/256, 998–1001 and at a random place —; for
+# eliminate_lambda no "" key in any row and every state reachable (own iterative search); state counts where the
+# construction determines them (correspondence difference only: not part of the property text).  The closed form is
+# tied to the real objects twice: (1) on every deep source the closed form is compared with the table semantics of the
+# object actually built on all probe words; (2) `deep_small_twin`: the same specs scaled down to ≤ 20 states — closed
+# form vs. table semantics on ALL words up to length 11, then the conversions of the twin go through this module's
+# ordinary oracles (complete product search + exact comparison with the Lean model).
+# A failing step is re-run alone on a newly built object before it is reported; a step that does not answer within
+# DEEP_TIMEOUT_S is an observation ("gave no answer"), after two of them the rest of the family is skipped.
+DEEP_TIMEOUT_S = 10
+
+
+class _Timeouts:
+    n = 0
+
+
+def deep_do(obj, step):
+    """One conversion of the live object: ("ok", result) / ("err", class name) / ("err", "_Timeout")."""
+    kind = step[0]
+    if kind == "from_nfa":
+        f = lambda: DFA.from_nfa(obj, retain_names=bool(step[1]), minify=bool(step[2]))
+    elif kind == "elim":
+        f = lambda: obj.eliminate_lambda()
+    elif kind == "from_dfa":
+        f = lambda: NFA.from_dfa(obj)
+    else:
+        raise ValueError(f"deep family: unknown step {step!r}")
+    r = QL.guarded(f, DEEP_TIMEOUT_S)
+    if r == ("err", "_Timeout"):
+        _Timeouts.n += 1
+    return r
+
+
+def show_step(step) -> str:
+    if step[0] == "from_nfa":
+        return f"DFA.from_nfa(N, retain_names={bool(step[1])}, minify={bool(step[2])})"
+    return "N.eliminate_lambda()" if step[0] == "elim" else "NFA.from_dfa(D)"
+
+
+class _Reader:
+    """Reads words off the TRANSITION TABLES of an automaton (langoracle's textbook interpreter; no library
+    algorithm), sharing the work along a base word: the probe words are near misses of one long word."""
+
+    def __init__(self, obj, base: str):
+        self.m = langoracle.machine(obj)
+        self.base = base
+        S = self.m.start()
+        self.trace = [S]
+        for a in base:
+            S = self.m.step(S, a) if S else S
+            self.trace.append(S)
+
+    def accepts(self, w: str) -> bool:
+        base = self.base
+        lo, hi = 0, min(len(w), len(base))
+        while lo < hi:                                  # longest common prefix (slices compare at C speed)
+            mid = (lo + hi + 1) // 2
+            if w[:mid] == base[:mid]:
+                lo = mid
+            else:
+                hi = mid - 1
+        S = self.trace[lo]
+        for a in w[lo:]:
+            if not S:                                   # None (DFA: no transition) / empty set: dead for good
+                return False
+            S = self.m.step(S, a)
+        return bool(S) and self.m.accepting(S)
+
+
+def deep_probes(lang: "ND.DeepNFA", seed: int):
+    import random
+    return lang.probe_words(random.Random(seed))
+
+
+def deep_judge(lang, step, got, probes, src=None):
+    """(message or None, count note or None): what is wrong with the result of `step` on the automaton of `lang`."""
+    if got[0] != "ok":
+        if got == ("err", "_Timeout"):
+            return f"gave no answer within {DEEP_TIMEOUT_S} s", None
+        return f"raised {got[1]} on a valid {'DFA' if lang.as_dfa else 'NFA'}", None
+    R = got[1]
+    want_cls = DFA if step[0] == "from_nfa" else NFA
+    if not isinstance(R, want_cls):
+        return f"returned a {type(R).__name__}", None
+    bad = check_valid(R)
+    if bad:
+        return f"returned an automaton that does not validate ({bad})", None
+    if set(R.input_symbols) != set(ND.SYMS):
+        return f"returned an automaton over {sorted(R.input_symbols)!r}", None
+    if step[0] == "elim":
+        for q, row in R.transitions.items():
+            if "" in row:
+                return f"left an empty-string transition (row of {q!r})", None
+        seen = {R.initial_state}
+        work = [R.initial_state]
+        while work:
+            q = work.pop()
+            for ts in R.transitions.get(q, {}).values():
+                for t in ts:
+                    if t not in seen:
+                        seen.add(t)
+                        work.append(t)
+        left = set(R.states) - seen
+        if left:
+            return f"left {len(left)} unreachable states (e.g. {sorted(left, key=repr)[:3]!r})", None
+    rd = _Reader(R, probes[0])
+    for w in probes:
+        want = lang.member(w)
+        if rd.accepts(w) != want:
+            real = call(lambda: R.accepts_input(w))
+            return (f"returned an automaton whose transition tables {'reject' if want else 'accept'} {ND.short(w)} "
+                    f"(its accepts_input: {real[1]}), which the source {'accepts' if want else 'rejects'} "
+                    f"(closed form of the construction)"), None
+    note = None
+    if step[0] == "from_nfa" and len(R.states) != lang.dfa_states(bool(step[2])):
+        note = (len(R.states), f"{lang.dfa_states(bool(step[2]))} = " + ("states of the minimal partial DFA of the language"
+                                                                      if step[2] else "reachable non-empty subsets"))
+    elif step[0] == "elim" and lang.elim_states() is not None and len(R.states) != lang.elim_states():
+        note = (len(R.states), f"{lang.elim_states()} = reachable states of a source without empty-string moves")
+    elif step[0] == "from_dfa" and src is not None and set(R.states) != set(src.states):
+        note = (len(R.states), f"{len(src.states)} = the DFA's states")
+    return None, note
+
+
+def run_deep(lang, steps, probes, built=None):
+    """The steps on ONE object (newly built unless given); (index, message) of the first wrong result / None,
+    and the count notes."""
+    obj = built if built is not None else lang.build()
+    notes = []
+    for i, step in enumerate(steps):
+        got = deep_do(obj, step)
+        msg, note = deep_judge(lang, step, got, probes, obj)
+        if note:
+            notes.append((step, note))
+        if msg is not None:
+            return (i, msg), notes
+    return None, notes
+
+
+def deep_what(lang, steps, i, msg) -> str:
+    hist = "; ".join(show_step(s) for s in steps[:i])
+    return (f"{show_step(steps[i])} {msg} — on {lang.expr()}, longest simple path {lang.depth()}"
+            + (f"; called on ONE object after [{hist}]" if hist else "; first call on a newly built object"))
+
+
+def deep_selfcheck(ctx: Ctx, lang, obj, probes) -> bool:
+    """Closed form vs. the table semantics of the object actually built (all probe words); the library's own reader
+    is asked about two of them (statistics only — the reader is C01's subject)."""
+    rd = _Reader(obj, probes[0])
+    for w in probes:
+        ctx.stat("deep:selfcheck_words_closed_form_vs_tables")
+        if rd.accepts(w) != lang.member(w):
+            ctx.stat("deep:selfcheck_disagreement")
+            ctx.corr_diff("deep-closed-form", dict(automaton=lang.expr(), word=ND.short(w)),
+                          dict(tables=rd.accepts(w)), dict(closed_form_member=lang.member(w)))
+            return False
+    for w in probes[:2]:
+        real = QL.guarded(lambda: obj.accepts_input(w), DEEP_TIMEOUT_S)
+        ctx.stat("deep:source_accepts_input_agrees" if real == ("ok", lang.member(w)) else "deep:source_accepts_input_DIFFERS")
+    return True
+
+
+@guarded
+def check_deep(ctx: Ctx, spec: dict, steps: list, origin: str = "deep", probe_seed: int = 0):
+    if _Timeouts.n >= 2 or ctx.stats.get("deep:violations", 0) >= 4:
+        ctx.stat("deep:skipped_after_failures")
+        return
+    lang = ND.DeepNFA(spec)
+    probes = deep_probes(lang, probe_seed)
+    b = QL.guarded(lang.build, DEEP_TIMEOUT_S)
+    if b[0] == "err":
+        # whether the constructors cope with such sizes is not C07's statement (sources are valid automata BUILT
+        # through the real constructors)
+        ctx.stat("deep:construction_raised")
+        ctx.corr_diff("deep-construction", dict(automaton=lang.expr()), f"raised {b[1]}", "an automaton")
+        return
+    obj = b[1]
+    shape = ("dfa_" if lang.as_dfa else "") + f"eps_{lang.eps}+pre_{lang.pre[0] if lang.pre else 'none'}+tail_{lang.tail[0]}" \
+        + ("+unreachable_component" if lang.U else "")
+    ctx.stat(f"{origin}:{shape}")
+    ctx.stat(f"{origin}:states:{len(obj.states) // 500 * 500}+")
+    ctx.stat(f"{origin}:longest_simple_path:{lang.depth() // 500 * 500}+")
+    ctx.stat("deep:closed_form_oracle_no_model_round_trip")
+    ctx.stat("deep:probe_words", len(probes))
+    ctx.stat(f"deep:longest_probe_word:{max(len(w) for w in probes) // 500 * 500}+")
+    if not deep_selfcheck(ctx, lang, obj, probes):
+        return
+    if ctx.stats.get(f"{origin}:{shape}", 0) == 1:
+        ctx.sample(dict(automaton=lang.expr(), steps=[show_step(s) for s in steps],
+                        accepted=[ND.short(w) for w in lang.accepted_words(ctx.rng)[:2]], probe_words=len(probes)))
+    for s in steps:
+        ctx.case(("deep", json.dumps(spec, sort_keys=True), json.dumps(s)))
+        ctx.stat(f"{origin}_op:" + (s[0] if s[0] != "from_nfa" else f"from_nfa_retain{int(s[1])}_minify{int(s[2])}"))
+    r, notes = run_deep(lang, steps, probes, obj)
+    for step, (have, want) in notes:
+        ctx.corr_diff("deep state count " + show_step(step), dict(automaton=lang.expr()), have, want)
+    if r is None:
+        return
+    i, msg = r
+    # re-confirm on a newly built object: the step alone, else the recorded prefix
+    small = None
+    for cand in ([steps[i]], steps[: i + 1]):
+        r2, _ = run_deep(lang, cand, probes)
+        if r2 is not None and r2[0] == len(cand) - 1:
+            small, msg = cand, r2[1]
+            break
+    if small is None:
+        ctx.stat("deep:failure_not_reproduced")
+        ctx.corr_diff("deep-not-reproduced", dict(automaton=lang.expr(), steps=steps[: i + 1]), msg, "the same on a rebuilt object")
+        return
+    ctx.stat("deep:violations")
+    what = deep_what(lang, small, len(small) - 1, msg)
+    ctx.prop_fail(what, dict(op="deep", automaton=lang.expr(), spec=spec, steps=small, probe_seed=probe_seed, what=what))
+
+
+OPTS4 = [["from_nfa", r, m] for r in (False, True) for m in (False, True)]
+
+
+def deep_plan(rng, thorough: bool):
+    """[(spec, steps)] — sizes are drawn from rng, the shapes are fixed: every operation of the property is run on
+    a deep / large instance in every run.  Linear shapes: 1100–3000; the pure empty-string chain / cycle make the
+    closure table and eliminate_lambda quadratic (every closure has up to L members), so they stay at 1100–1200."""
+    lin = lambda: rng.randint(1100, 3000)
+    big = lambda: rng.randint(2400, 3000)
+    steps_all = lambda: [list(s) for s in rng.sample(OPTS4, 4)] + [["elim"]]
+    plan = []
+    # D1: plain long chain + a long unreachable component with edges into the reachable part
+    plan.append((dict(m=big(), pat="ab", eps="none", pre=None, tail=["end"], unreach=rng.randint(1100, 2000)), steps_all()))
+    # D2: EVERY step doubled by an empty-string move, short cycle at the end
+    plan.append((dict(m=rng.randint(1100, 2000), pat="aab", eps="double", pre=None, tail=["loop", rng.randint(2, 5)], unreach=0),
+                 [["elim"]] + steps_all()[:4]))
+    # D3: pure empty-string chain of 1100+ states in front of a tiny automaton
+    plan.append((dict(m=rng.randint(1, 3), pat="ab", eps="none", pre=["chain", rng.randint(1100, 1200)], tail=["nth", 2], unreach=0),
+                 steps_all()))
+    # D4: empty-string CYCLE of 1100+ states (every closure = the whole cycle)
+    #     — from_nfa on 1100+; eliminate_lambda walks every closure for every state (L × L), so it gets a cycle of 300–450
+    plan.append((dict(m=rng.randint(1, 3), pat="ba", eps="none", pre=["cycle", rng.randint(1100, 1130)], tail=["end"], unreach=0),
+                 steps_all()[:4]))
+    plan.append((dict(m=rng.randint(1, 3), pat="ab", eps="none", pre=["cycle", rng.randint(300, 450)], tail=["nth", 2], unreach=0),
+                 [["elim"], list(rng.choice(OPTS4))]))
+    # D5: long chain, then n-th symbol from the end (small n): nondeterministic tail, linear subset construction
+    plan.append((dict(m=lin(), pat="abb", eps="third", pre=None, tail=["nth", rng.randint(3, 4)], unreach=0), steps_all()))
+    # D6: a ring / an extra edge from the last state back to one of the FIRST states
+    m = lin()
+    plan.append((dict(m=m, pat="ab", eps="none", pre=None, tail=["loop", m + 1 - rng.randint(0, 3)], unreach=0), steps_all()))
+    # D7: fan-out of 1100–3000 targets (one subset state with that many members)
+    plan.append((dict(m=rng.randint(2, 6), pat="ab", eps="none", pre=None, tail=["fan", lin()], unreach=0), steps_all()))
+    # D8 / D9: NFA.from_dfa — a partial chain DFA with a long unreachable component; a complete ring DFA with a trap
+    plan.append((dict(m=big(), pat="ab", eps="none", pre=None, tail=["end"], unreach=rng.randint(1100, 1500), as_dfa=True),
+                 [["from_dfa"]]))
+    m = lin()
+    plan.append((dict(m=m, pat="aab", eps="none", pre=None, tail=["loop", m + 1], unreach=0, as_dfa=True, complete=True),
+                 [["from_dfa"], ["from_dfa"]]))
+    if thorough:
+        plan.append((dict(m=rng.randint(3000, 6000), pat="ab", eps="double", pre=None, tail=["nth", 5], unreach=3000), steps_all()))
+        plan.append((dict(m=rng.randint(1, 3), pat="ab", eps="none", pre=["chain", rng.randint(1500, 2000)], tail=["end"], unreach=0),
+                     steps_all()))
+        plan.append((dict(m=rng.randint(1, 3), pat="ab", eps="none", pre=["cycle", rng.randint(1500, 2000)], tail=["nth", 3], unreach=0),
+                     steps_all()))
+        plan.append((dict(m=rng.randint(3000, 6000), pat="ab", eps="none", pre=None, tail=["loop", 3], unreach=0, as_dfa=True),
+                     [["from_dfa"]]))
+    return plan
+
+
+@guarded
+def deep_small_twin(ctx: Ctx, spec: dict, steps: list):
+    """The closed form against the table semantics on ALL words up to length 11 of a scaled-down automaton of the same
+    shape (a disagreement is a harness error), then the twin's conversions through the ordinary oracles of this
+    module (complete product search, exact comparison with the Lean model) and through the closed-form judge."""
+    from harness.common import InfraError
+    lang = ND.DeepNFA(spec)
+    obj = lang.build()
+    m = langoracle.machine(obj)
+    for w in lang.all_short_words(11):
+        S = m.start()
+        for a in w:
+            S = m.step(S, a)
+        if m.accepting(S) != lang.member(w):
+            raise InfraError(f"C07 deep family: closed form and table semantics disagree on {w!r} of {lang.expr()}")
+    ctx.stat("deep:small_twin")
+    ctx.stat("deep:small_twin_words_closed_form_vs_tables", 2 ** 12 - 1)
+    probes = deep_probes(lang, 0)
+    for s in steps:
+        n0 = ctx.n_prop_fails
+        if s[0] == "from_nfa":
+            do_from_nfa(ctx, obj, bool(s[1]), bool(s[2]), "deep_small_twin")
+        elif s[0] == "elim":
+            do_elim(ctx, obj, "deep_small_twin")
+        else:
+            do_from_dfa(ctx, obj, "deep_small_twin")
+        msg, note = deep_judge(lang, s, deep_do(obj, s), probes, obj)
+        if note:
+            ctx.corr_diff("deep small twin state count " + show_step(s), dict(automaton=lang.expr()), note[0], note[1])
+        if (msg is not None) != (ctx.n_prop_fails > n0):
+            ctx.corr_diff("deep-judge-vs-ordinary-oracle", dict(automaton=lang.expr(), step=s), msg,
+                          f"{ctx.n_prop_fails - n0} failures reported by the product-search oracle")
+
+
+def deep_family(ctx: Ctx):
+    rng = ctx.rng
+    plan = deep_plan(rng, ctx.thorough())
+    for spec, steps in plan:
+        deep_small_twin(ctx, ND.shrink(spec, rng), steps)
+    for spec, steps in plan:
+        check_deep(ctx, spec, steps, "deep", rng.randrange(1 << 30))
+
+
 def probe_reserved_names(ctx: Ctx):
     """The domain assumption 'symbols are non-empty str' is enforced by the constructors."""
     r = call(lambda: NFA(states={0}, input_symbols={"", "a"}, transitions={0: {}}, initial_state=0, final_states=set()))
@@ -625,6 +967,8 @@ def run(ctx: Ctx):
     many_subsets_family(ctx)
     # round 4: the mutable-automata option — sequences of calls on ONE object built from plain / shared containers
     mutable_option_family(ctx, ctx.budget(300, 3000))
+    # round 7: deep / large instances (1100–3000 states on one simple path), judged by closed form
+    deep_family(ctx)
 
 
 def search(ctx: Ctx):
@@ -646,7 +990,9 @@ def replay(ctx: Ctx, path: str) -> int:
     data = json.load(open(path))
     rp = data.get("replay", data)
     env = {"DFA": DFA, "NFA": NFA, "frozenset": frozenset}
-    if rp["op"] == "mutable_sequence":
+    if rp["op"] == "deep":
+        check_deep(ctx, rp["spec"], rp["steps"], "replay", rp.get("probe_seed", 0))
+    elif rp["op"] == "mutable_sequence":
         run_mutable_sequence(ctx, eval(rp["N"], env), rp["mode"], rp["steps"], "replay")
     elif rp["op"] == "mutable_dfa_sequence":
         run_live_dfa(ctx, eval(rp["D"], env), rp["mode"], rp.get("k", len(rp["steps"])))
